@@ -18,6 +18,9 @@ CHOICES = {
     'extra_sections': (False, True),
     'indent': (True, False),
     'group_child_flag': (None, 'true', 'false'),   # mandatory attribute on children of or/alt (ignored by FeatureIDE)
+    # element used for a feature without children.  Anything but <feature> is a degenerate document (a group
+    # element without members): a reader may reject it, or read the childless element as the leaf it is
+    'leaf_tag': ('feature', 'and', 'or', 'alt'),
 }
 DEFAULT = {k: v[0] for k, v in CHOICES.items()}
 
@@ -71,7 +74,7 @@ def emit(model, ch):
         name, rels, abstract = f[0], f[1], f[2]
         kinds = [sem.kind(a, b, len(k)) for (a, b, k) in rels]
         if not rels:
-            tag = 'feature'
+            tag = ch.get('leaf_tag', 'feature') if parent_kind != 'root' else 'feature'
         elif kinds == ['or']:
             tag = 'or'
         elif kinds == ['alternative']:
